@@ -84,3 +84,122 @@ pub fn stub_copy_from_process(pid: Pid, src: usize, length: usize) -> Result<Vec
 pub fn stub_format(_args: core::fmt::Arguments<'_>) -> String {
     String::new()
 }
+
+/// Model of `Vec::<u8>::resize(new_len, 0)` without the per-byte `extend_with` loop (measured:
+/// ~0.3 s of symbolic execution per byte; a 1232-byte CPU context took 530 s).  The crate only
+/// ever resizes byte vectors with the value 0, which the model asserts; the fill is a memset,
+/// which CBMC handles natively.
+pub fn stub_vec_resize<T: Clone, A: std::alloc::Allocator>(v: &mut Vec<T, A>, new_len: usize, value: T) {
+    assert!(core::mem::size_of::<T>() == 1, "resize model is for byte vectors");
+    let b: u8 = unsafe { core::mem::transmute_copy(&value) };
+    assert!(b == 0, "resize model is for zero fill");
+    let len = v.len();
+    if new_len > len {
+        let n = new_len - len;
+        v.reserve(n);
+        unsafe {
+            core::ptr::write_bytes(v.as_mut_ptr().add(len), 0u8, n);
+            v.set_len(new_len);
+        }
+    } else {
+        v.truncate(new_len);
+    }
+}
+
+/// Layout model of minidump-common's (derived) little-endian serializer for CONTEXT_AMD64.
+/// The real one costs ~8 min of symbolic execution per context (512-iteration byte loop through
+/// scroll); harnesses that write whole thread lists use this model instead, and
+/// `c16_context` checks the real serializer against the same offsets.
+pub fn stub_context_try_into_ctx<'a>(
+    this: &'a minidump_common::format::CONTEXT_AMD64,
+    dst: &mut [u8],
+    _ctx: scroll::Endian,
+) -> Result<usize, scroll::Error>
+where
+    'a: 'a, // makes the lifetime early-bound so the generic parameter count matches the impl's
+{
+    const SIZE: usize = 1232;
+    assert!(dst.len() >= SIZE);
+    for b in dst[..0x30].iter_mut() {
+        *b = 0;
+    }
+    dst[0x30..0x34].copy_from_slice(&this.context_flags.to_le_bytes());
+    dst[0x34..0x38].copy_from_slice(&this.mx_csr.to_le_bytes());
+    dst[0x38..0x3a].copy_from_slice(&this.cs.to_le_bytes());
+    dst[0x3a..0x3c].copy_from_slice(&this.ds.to_le_bytes());
+    dst[0x3c..0x3e].copy_from_slice(&this.es.to_le_bytes());
+    dst[0x3e..0x40].copy_from_slice(&this.fs.to_le_bytes());
+    dst[0x40..0x42].copy_from_slice(&this.gs.to_le_bytes());
+    dst[0x42..0x44].copy_from_slice(&this.ss.to_le_bytes());
+    dst[0x44..0x48].copy_from_slice(&this.eflags.to_le_bytes());
+    let regs = [
+        this.dr0, this.dr1, this.dr2, this.dr3, this.dr6, this.dr7, this.rax, this.rcx, this.rdx, this.rbx, this.rsp,
+        this.rbp, this.rsi, this.rdi, this.r8, this.r9, this.r10, this.r11, this.r12, this.r13, this.r14, this.r15,
+        this.rip,
+    ];
+    let mut k = 0;
+    while k < 23 {
+        dst[0x48 + 8 * k..0x50 + 8 * k].copy_from_slice(&regs[k].to_le_bytes());
+        k += 1;
+    }
+    dst[0x100..0x300].copy_from_slice(&this.float_save);
+    unsafe {
+        core::ptr::write_bytes(dst.as_mut_ptr().add(0x300), 0u8, SIZE - 0x300);
+    }
+    Ok(SIZE)
+}
+
+/// Ghost-logging replacements used by the thread-list harnesses.  Reading a > 512-byte image
+/// buffer back after ~60 array updates makes CBMC's array post-processing run out of memory
+/// (measured: 16 GB within 5 min for ONE thread), so these harnesses observe what is handed to the
+/// image builder instead of the image bytes; that the builder places it correctly is C16.
+pub const LOG_MAX: usize = 4;
+pub static mut CTX_N: usize = 0;
+/// rip, rsp, rax, r15, rsi per serialized context
+pub static mut CTX_LOG: [[u64; 5]; LOG_MAX] = [[0; 5]; LOG_MAX];
+pub static mut CTX_XMM0: [u32; LOG_MAX] = [0; LOG_MAX];
+pub static mut CTX_FLAGS: [u32; LOG_MAX] = [0; LOG_MAX];
+
+pub fn stub_context_log<'a>(
+    this: &'a minidump_common::format::CONTEXT_AMD64,
+    dst: &mut [u8],
+    _ctx: scroll::Endian,
+) -> Result<usize, scroll::Error>
+where
+    'a: 'a,
+{
+    assert!(dst.len() >= 1232);
+    unsafe {
+        let n = CTX_N;
+        assert!(n < LOG_MAX);
+        CTX_LOG[n] = [this.rip, this.rsp, this.rax, this.r15, this.rsi];
+        CTX_XMM0[n] = u32::from_le_bytes([this.float_save[160], this.float_save[161], this.float_save[162], this.float_save[163]]);
+        CTX_FLAGS[n] = this.context_flags;
+        CTX_N = n + 1;
+    }
+    Ok(1232)
+}
+
+pub static mut THREAD_LOG: [Option<minidump_common::format::MINIDUMP_THREAD>; LOG_MAX] = [None, None, None, None];
+pub static mut THREAD_SETS: usize = 0;
+
+/// `MemoryArrayWriter::<T>::set_value_at` for T = MINIDUMP_THREAD: remembers (index, value).
+pub fn stub_set_value_at_log<T>(
+    _this: &mut crate::mem_writer::MemoryArrayWriter<T>,
+    _buffer: &mut crate::mem_writer::Buffer,
+    val: T,
+    index: usize,
+) -> Result<(), crate::mem_writer::MemoryWriterError>
+where
+    T: scroll::ctx::TryIntoCtx<scroll::Endian, Error = scroll::Error> + scroll::ctx::SizeWith<scroll::Endian>,
+{
+    assert!(core::mem::size_of::<T>() == core::mem::size_of::<minidump_common::format::MINIDUMP_THREAD>());
+    assert!(index < LOG_MAX);
+    unsafe {
+        let t: minidump_common::format::MINIDUMP_THREAD = core::mem::transmute_copy(&val);
+        core::mem::forget(val);
+        THREAD_LOG[index] = Some(t);
+        THREAD_SETS += 1;
+    }
+    Ok(())
+}
